@@ -1,5 +1,5 @@
 // @unit c09_routing property=C09 attach=typify-impl/src/merge.rs
-// @h c09_merge_schema_object_routes tier=both
+// @h c09_merge_schema_object_routes tier=both replay=none
 // @canary canary_c09_routing
 //
 // C09 -- ROUTING of the pairwise merge (`merge_schema_object`): the field-wise merges whose
